@@ -119,8 +119,8 @@ func (r *RtpPackerPayloadAvcHevc) PackNal(nal []byte, maxSize int) (out [][]byte
 	// nalType [01, 06]
 	//
 	// 输出
-	// 49      [01, 06] 49是hevc fua的nal type
-	// 1       [10, 17]
+	// 49      [01, 06] 49是hevc fua的nal type，[00]和[07]保持输入nal header的值
+	// 输入nal header的第二个字节（layer id和tid） [10, 17]
 	// start   [20]
 	// end     [21]
 	// nalType [22, 27] 注意，和输入的nalType的所在type字节的位位置不同
@@ -174,8 +174,9 @@ func (r *RtpPackerPayloadAvcHevc) PackNal(nal []byte, maxSize int) (out [][]byte
 				item[0] = NaluTypeAvcFua | nri
 				item[1] = nalType
 			} else {
-				item[0] = NaluTypeHevcFua << 1
-				item[1] = 1 // ffmpeg, rtpenc_h264_hevc.c, func nal_send
+				// rfc7798 4.4.3: PayloadHdr keeps F, LayerId and TID of the fragmented nal unit
+				item[0] = (nal[0] & 0x81) | (NaluTypeHevcFua << 1)
+				item[1] = nal[1]
 				item[2] = nalType
 			}
 
@@ -200,8 +201,8 @@ func (r *RtpPackerPayloadAvcHevc) PackNal(nal []byte, maxSize int) (out [][]byte
 			item[0] = NaluTypeAvcFua | nri
 			item[1] = nalType | 0x40 // end
 		} else {
-			item[0] = NaluTypeHevcFua << 1
-			item[1] = 1
+			item[0] = (nal[0] & 0x81) | (NaluTypeHevcFua << 1)
+			item[1] = nal[1]
 			item[2] = nalType | 0x40
 		}
 
